@@ -55,6 +55,9 @@ type server struct {
 	receipts chan ncsclient.ReceiptPayload
 }
 
+// syncEvery is the server's clock-synchronisation interval; production runs with an interval far below the idle timeout
+var syncEvery = time.Hour
+
 func newServer(idle, frame time.Duration) *server {
 	s := &server{sessions: &models.SessionStore{DiscoveryService: discovery{}}, idle: idle, frame: frame,
 		receipts: make(chan ncsclient.ReceiptPayload, 128)}
@@ -63,7 +66,7 @@ func newServer(idle, frame time.Duration) *server {
 		Handler: func(conn *websocket.Conn) {
 			defer conn.Close()
 			var rh hws.Handler = &hws.RealtimeHandler{
-				ClientSyncClockInterval: time.Hour,
+				ClientSyncClockInterval: syncEvery,
 				ClientIdleTimeout:       s.idle,
 				FrameDuration:           s.frame,
 				Sessions:                s.sessions,
@@ -664,6 +667,10 @@ func scenarioStallSilent(seed int64, idle, frame time.Duration) *verdict {
 }
 
 func scenarioIdle(seed int64, idle, frame time.Duration) *verdict {
+	// as in production, the server's own heartbeat is much more frequent than the idle timeout: it must not count as
+	// activity of the client
+	syncEvery = idle / 4
+	defer func() { syncEvery = time.Hour }()
 	w := newWorld(seed, idle, frame)
 	silent, _ := w.offender(true, true)
 	chatty := w.s.dial("chatty", true)
